@@ -1,12 +1,26 @@
 import Cfdm.Lemmas.Ragged
+import Cfdm.Lemmas.RaggedND
+import Cfdm.Lemmas.RaggedState
+import Cfdm.Lemmas.RaggedNc
 import Cfdm.Props.C03
 /-
 C06 — data compressed by convention are seen uncompressed, exactly.
-Property theorems only.  Model and specification: `Cfdm/Model/Ragged.lean`.
+Property theorems only.  Models and specifications:
+  `Cfdm/Model/Ragged.lean`      the four `subarrays()` generators, the subarray classes, the assembly in
+                                `CompressedArray.__getitem__`, `Field.compress` (one array)
+  `Cfdm/Model/RaggedND.lean`    gathering inside an N-d array (any leading / trailing dimensions), the shapes a
+                                reader derives, `Field.compress` with metadata constructs (shared counts)
+  `Cfdm/Model/RaggedState.lean` which `Data` operations keep the compressed array and which replace it
+  `Cfdm/Model/RaggedNc.lean`    the netCDF encoding written by `cfdm.write` and its decoding by `cfdm.read`
 
-The model mirrors the anchored cfdm code *after* the repairs proposed in
-`fixes/C06-*.patch` (instances iterated by `range`, zero counts kept); the code as
-it is now is kept as `…Old` with `decide` counter-examples below.
+The models mirror the anchored cfdm code as it is at /repo HEAD, i.e. WITH the repairs
+82a1a24 (instances iterated by `range`, not `np.unique`), 8c31532 (trailing dimension of indexed
+contiguous arrays), d324c79 (zero counts kept), f1a0d65 (mask of an assigned `Data` value kept),
+d4c0294 (counts from every array compressed with them), 0eac4fa (datasets without samples),
+dd549ba (unique sample / feature dimension names).  The code as it was before a repair is kept as
+`…Old` with a `decide` counter-example (`C06_*_old_code_counterexample`); those theorems document
+the repaired defects, they say nothing about HEAD.  Open findings (known_findings.json) are named
+where the theorem that excludes them stands.
 -/
 namespace Cfdm.Props.C06
 open Cfdm.Ragged Cfdm.Arr Cfdm.Indexing
@@ -47,7 +61,7 @@ example : ∀ i, i < 3 → ([2, 0, 2, 0, 2] : List Nat).count i ≤ 3 := by deci
 example : decodeIndexed [2, 0, 2, 0, 2] 3 3 [some 10, some 11, some 12, some 13, some 14]
     = [[some 11, some 13, none], [none, none, none], [some 10, some 12, some 14]] := by decide
 
-/-- The code as it is now (`for i in np.unique(index)`) is wrong as soon as an
+/-- The code before repair 82a1a24 (`for i in np.unique(index)`) was wrong as soon as an
 instance has no samples: instance 2's samples land in row 1. -/
 theorem C06_indexed_old_code_counterexample :
     decodeIndexedOld [2, 0, 2] 3 2 [some 10, some 11, some 12]
@@ -85,7 +99,7 @@ example : decodeIndexedContiguous [2, 1, 3] [1, 0, 1] 2 2 3 [some 0, some 1, som
     = [[some 2, none, none], [none, none, none], [some 0, some 1, none], [some 3, some 4, some 5]] := by
   decide
 
-/-- The code as it is now: instance 0 has no profile, so instance 1's profile is
+/-- The code before repair 82a1a24: instance 0 has no profile, so instance 1's profile is
 placed in instance 0. -/
 theorem C06_indexed_contiguous_old_code_counterexample :
     decodeIndexedContiguousOld [2] [1] 2 1 2 [some 7, some 8] = [[some 7, some 8], [none, none]]
@@ -188,7 +202,7 @@ example : let rows : List (List (M Nat)) := [[some 1, none, some 3], [none, none
     (compressContiguous rows).count = [3, 0, 2] ∧ (compressIndexed rows).index = [0, 0, 0, 2, 2] := by
   decide
 
-/-- The code as it is now drops zero counts (`[n for n in count if n]`): an
+/-- The code before repair d324c79 dropped zero counts (`[n for n in count if n]`): an
 all-masked row makes every later row move up. -/
 theorem C06_compress_old_code_counterexample :
     let rows : List (List (M Nat)) := [[some 1, none], [none, none], [some 2, some 3]]
@@ -234,7 +248,7 @@ example : let a : List (List (List (M Nat))) :=
     (compressIndexedContiguous a).count = [1, 0, 2, 0, 2] ∧ (compressIndexedContiguous a).index = [0, 0, 0, 2, 2] := by
   decide
 
-/-- The code as it is now drops the zero count of an empty profile that lies between
+/-- The code before repair d324c79 dropped the zero count of an empty profile that lies between
 two non-empty ones: the later profile moves up. -/
 theorem C06_compress_indexed_contiguous_old_code_counterexample :
     let a : List (List (List (M Nat))) := [[[some 0, none], [none, none], [some 8, some 9]]]
@@ -262,15 +276,539 @@ example : decodeContiguous [1, 2] 2 2 (([some [1, 2], some [3, 4], some [5, 6]] 
       (Option.map (fun s => s.getD 1 0)))
     = [[some 2, none], [some 4, some 6]] := by decide
 
+/-- **Gathered array inside an N-d array** (any number of leading and trailing dimensions
+around the gathered block; the compressed array has shape `lead ++ [n] ++ trail`).  For every
+list variable with in-range values and every multi-index whose block part is valid, the element
+that `GatheredSubarray.__getitem__` (`u[…, unravel_index(list, dims), …] = data`) leaves there is
+the CF 8.2 one: the element of the compressed array with the same leading and trailing indices and
+the sample number `k` for which `list[k]` is the row-major flat index of the block part; missing
+when there is no such sample. -/
+theorem C06_decode_gathered_nd {α} (nl : Nat) (dims l : List Nat) (data : List Nat → M α)
+    (idx : List Nat) (hl : ∀ q ∈ l, q < prod dims) (hi : InRange dims (midIdx nl dims.length idx)) :
+    decodeGatheredND nl dims l data idx = specGatheredND nl dims l data idx := by
+  simp only [decodeGatheredND, specGatheredND]
+  exact gatherAssignND_spec nl dims data idx hi l 0 _ hl
+
+example : InRange [2, 3] (midIdx 1 2 [4, 1, 0, 7, 7]) := by simp [midIdx, InRange]
+example : decodeGatheredND 1 [2, 3] [5, 0, 3] (fun i => some (i.getD 0 0 * 100 + i.getD 1 0 * 10 + i.getD 2 0))
+    [4, 1, 0, 7] = some 427 := by decide
+
+/-- CF 8.2 read literally with extra dimensions, first half: for a list of distinct in-range
+values, sample `k` of the column `(li, ti)` is found at `li ++ unravel(list[k]) ++ ti`. -/
+theorem C06_gathered_nd_hit {α} (dims l : List Nat) (data : List Nat → M α) (li ti : List Nat)
+    (k : Nat) (hl : ∀ q ∈ l, q < prod dims) (hnd : l.Nodup) (hk : k < l.length) :
+    decodeGatheredND li.length dims l data (li ++ unravel dims l[k] ++ ti) = data (li ++ k :: ti) := by
+  have hq : l[k] < prod dims := hl _ (List.getElem_mem hk)
+  have hlen : (unravel dims l[k]).length = dims.length := by
+    have : ∀ (d : List Nat) (q : Nat), (unravel d q).length = d.length := by
+      intro d; induction d with
+      | nil => intro q; simp [unravel]
+      | cons n ns ih => intro q; simp [unravel, ih]
+    exact this _ _
+  have hmid : midIdx li.length dims.length (li ++ unravel dims l[k] ++ ti) = unravel dims l[k] := by
+    simp [midIdx, List.append_assoc, hlen]
+  have hs : ∀ j, sampleIdx li.length dims.length (li ++ unravel dims l[k] ++ ti) j = li ++ j :: ti := by
+    intro j
+    simp [sampleIdx, List.append_assoc, ← hlen]
+  rw [C06_decode_gathered_nd li.length dims l data _ hl (by rw [hmid]; exact inRange_unravel dims _ hq),
+    specGatheredND, hmid, ravel_unravel dims _ hq]
+  cases hp : lastPosFrom l[k] 0 l with
+  | none => exact absurd (List.getElem_mem hk) ((lastPosFrom_none _ _ _).mp hp)
+  | some j =>
+    obtain ⟨_, h2, _⟩ := lastPosFrom_some _ _ _ _ hp
+    simp only [Nat.sub_zero] at h2
+    have hj : j < l.length := by
+      rcases Nat.lt_or_ge j l.length with h | h
+      · exact h
+      · rw [List.getElem?_eq_none h] at h2; simp at h2
+    have : l[j] = l[k] := by rw [List.getElem?_eq_getElem hj] at h2; simpa using h2
+    have : j = k := (List.Nodup.getElem_inj_iff hnd).mp this
+    rw [this]; exact congrArg data (hs k)
+
+/-- … second half: where the flat index of the block part is not listed, the element is missing,
+whatever the leading and trailing indices. -/
+theorem C06_gathered_nd_miss {α} (nl : Nat) (dims l : List Nat) (data : List Nat → M α)
+    (idx : List Nat) (hl : ∀ q ∈ l, q < prod dims) (hi : InRange dims (midIdx nl dims.length idx))
+    (hm : Ragged.ravel dims (midIdx nl dims.length idx) ∉ l) :
+    decodeGatheredND nl dims l data idx = none := by
+  rw [C06_decode_gathered_nd nl dims l data idx hl hi, specGatheredND, (lastPosFrom_none _ _ _).mpr hm]
+
+example : decodeGatheredND 1 [2, 3] [5, 0, 3] (fun i => some (i.getD 1 0)) ([4] ++ unravel [2, 3] 3 ++ [7])
+    = some 2 := by decide
+
+/-- **The array `cfdm.read` shows for a contiguous ragged array.**  The reader sizes the
+uncompressed array from the count variable alone (`len(count)` rows, `max(count)` columns, 0 for
+an empty variable): with that shape the decode theorem needs no hypothesis at all. -/
+theorem C06_read_contiguous {α} (count : List Nat) (c : List (M α)) :
+    readContiguous count c = table count.length (maxL count) (specContiguous count c) :=
+  C06_decode_contiguous count _ _ c (fun n hn => le_maxL count n hn)
+
+/-- … for an indexed ragged array (instance dimension of any size; index values beyond it are
+ignored; the row length is the largest number of samples that share an index value). -/
+theorem C06_read_indexed {α} (ninst : Nat) (index : List Nat) (c : List (M α)) :
+    readIndexed ninst index c = table ninst (maxOcc index) (specIndexed index c) :=
+  C06_decode_indexed index _ _ c (fun i _ => count_le_maxOcc index i)
+
+/-- … and for an indexed contiguous ragged array. -/
+theorem C06_read_indexed_contiguous {α} (ninst : Nat) (count index : List Nat) (c : List (M α)) :
+    readIndexedContiguous ninst count index c
+      = (table ninst (maxOcc index) (fun i j =>
+          (List.range (maxL count)).map (specIndexedContiguous count index c i j))).flatten :=
+  C06_decode_indexed_contiguous count index _ _ _ c (fun n hn => le_maxL count n hn)
+    (fun i _ => count_le_maxOcc index i)
+
+example : readContiguous [2, 0, 1] [some 1, some 2, some 3] = [[some 1, some 2], [none, none], [some 3, none]] := by
+  decide
+example : readIndexed 3 [2, 0, 2] [some 10, some 11, some 12] = [[some 11, none], [none, none], [some 10, some 12]] := by
+  decide
+
+/-- The reader's shape loses nothing: every element of the CF array that lies beyond the
+columns the reader allocates is missing (so a field that was compressed from a wider array is
+read back equal up to trailing all-missing columns). -/
+theorem C06_read_shape_sufficient {α} (count index : List Nat) (c : List (M α)) (i j : Nat) :
+    (maxL count ≤ j → specContiguous count c i j = none)
+    ∧ (maxOcc index ≤ j → specIndexed index c i j = none)
+    ∧ (∀ k, maxOcc index ≤ j ∨ maxL count ≤ k → specIndexedContiguous count index c i j k = none) := by
+  have hcont : ∀ (p k : Nat), maxL count ≤ k → specContiguous count c p k = none := by
+    intro p k h
+    simp only [specContiguous]
+    have : count.getD p 0 ≤ maxL count := by
+      rw [List.getD_eq_getElem?_getD]
+      cases hp : count[p]? with
+      | none => simp
+      | some n => exact le_maxL count n (List.mem_of_getElem? hp)
+    rw [if_neg (by omega)]
+  have hs : maxOcc index ≤ j → sampleOf index i j = none := by
+    intro h
+    rw [← whereEq_getElem?]
+    have := whereEq_length index i
+    have := count_le_maxOcc index i
+    exact List.getElem?_eq_none (by omega)
+  refine ⟨hcont i j, ?_, ?_⟩
+  · intro h; simp [specIndexed, hs h]
+  · intro k h
+    simp only [specIndexedContiguous]
+    rcases h with h | h
+    · rw [hs h]
+    · cases sampleOf index i j with
+      | none => rfl
+      | some p => exact hcont p k h
+
+/-- **Compress with shared counts, then read** (`Field.compress` at /repo HEAD packs the field
+data and every metadata construct on the same axes with ONE count vector).  For every count
+vector that fits (`CountsFit`: one count per row, none beyond the row length, none below the row's
+own trailing-mask count) packing an array with it and decoding is the identity. -/
+theorem C06_compress_counts_contiguous_roundtrip {α} (cnt : List Nat) (rows : List (List (M α)))
+    (ncols : Nat) (h : CountsFit ncols cnt rows) :
+    decodeContiguous (compressContiguousWith cnt rows).count rows.length ncols
+      (compressContiguousWith cnt rows).c = rows := by
+  have hF := C06_compress_contiguous_roundtrip (flaggedRows cnt rows) ncols (flaggedRows_rect ncols cnt rows h)
+  simp only [compressContiguous, flaggedRows_count ncols cnt rows h, flaggedRows_length cnt rows h.1] at hF
+  simp only [compressContiguousWith, pack_flagged ncols cnt rows h, decodeContiguous]
+  rw [assembleRows_mapNone Option.join rfl]
+  simp only [decodeContiguous] at hF
+  rw [hF, flaggedRows_join ncols cnt rows h]
+
+theorem C06_compress_counts_indexed_roundtrip {α} (cnt : List Nat) (rows : List (List (M α)))
+    (ncols : Nat) (h : CountsFit ncols cnt rows) :
+    decodeIndexed (compressIndexedWith cnt rows).index rows.length ncols
+      (compressIndexedWith cnt rows).c = rows := by
+  have hF := C06_compress_indexed_roundtrip (flaggedRows cnt rows) ncols (flaggedRows_rect ncols cnt rows h)
+  simp only [compressIndexed, flaggedRows_count ncols cnt rows h, flaggedRows_length cnt rows h.1] at hF
+  simp only [compressIndexedWith, pack_flagged ncols cnt rows h, decodeIndexed]
+  rw [assembleRows_mapNone Option.join rfl]
+  simp only [decodeIndexed] at hF
+  rw [hF, flaggedRows_join ncols cnt rows h]
+
+/-- The hypothesis cannot be dropped: a count below a row's own count cuts the row. -/
+theorem C06_counts_fit_needed :
+    let rows : List (List (M Nat)) := [[some 1, some 2, none]]
+    decodeContiguous (compressContiguousWith [1] rows).count 1 3 (compressContiguousWith [1] rows).c
+      = [[some 1, none, none]] := by decide
+
+/-- **The field and every construct on the same axes.**  With the counts that `Field.compress`
+derives at /repo HEAD — for each row the largest trailing-mask count over the field data and all
+metadata constructs spanning the data axes — EVERY one of these arrays comes back unchanged from
+`compress('contiguous')` and from `compress('indexed')`, whatever the masks of the others. -/
+theorem C06_compress_joint_roundtrip {α} (arrays : List (List (List (M α)))) (nrows ncols : Nat)
+    (hrect : ∀ b ∈ arrays, b.length = nrows ∧ ∀ r ∈ b, r.length = ncols) :
+    ∀ a ∈ arrays,
+      decodeContiguous (jointCount arrays) nrows ncols (pack (jointCount arrays) a) = a
+      ∧ decodeIndexed (indexFromCounts 0 (jointCount arrays)) nrows ncols (pack (jointCount arrays) a) = a := by
+  intro a ha
+  have hfit := jointCount_fits nrows ncols arrays hrect a ha
+  have hlen := (hrect a ha).1
+  constructor
+  · have := C06_compress_counts_contiguous_roundtrip (jointCount arrays) a ncols hfit
+    simpa [compressContiguousWith, hlen] using this
+  · have := C06_compress_counts_indexed_roundtrip (jointCount arrays) a ncols hfit
+    simpa [compressIndexedWith, hlen] using this
+
+example : jointCount ([[[some 1, none, none], [none, none, none]], [[some 7, some 8, none], [none, some 9, none]]]
+    : List (List (List (M Nat)))) = [2, 2] := by decide
+
+/-- The code before repair d4c0294 took the counts from the first same-axes auxiliary coordinate
+alone: field data reaching beyond that coordinate were cut off. -/
+theorem C06_compress_count_old_code_counterexample :
+    let field : List (List (M Nat)) := [[some 88, some 71, some 41, none]]
+    let aux : List (List (M Nat)) := [[some 1000, some 1001, none, none]]
+    decodeContiguous (jointCountOld field [aux]) 1 4 (pack (jointCountOld field [aux]) field)
+      = [[some 88, some 71, none, none]]
+    ∧ decodeContiguous (jointCount [field, aux]) 1 4 (pack (jointCount [field, aux]) field) = field := by
+  decide
+
+/-- The same for `compress('indexed_contiguous')` with any per-instance counts that fit
+(`CountsFitIC`): decoding the count variable, index variable and samples built from them gives
+the array back. -/
+theorem C06_compress_counts_indexed_contiguous_roundtrip {α} (cnts : List (List Nat))
+    (a : List (List (List (M α)))) (maxProf nelem : Nat) (h : CountsFitIC maxProf nelem cnts a) :
+    decodeIndexedContiguous (compressIndexedContiguousWith cnts a).count
+      (compressIndexedContiguousWith cnts a).index a.length maxProf nelem
+      (compressIndexedContiguousWith cnts a).c = a.flatten := by
+  obtain ⟨h1, h2, h3, h4, _⟩ := flagged3_props maxProf nelem cnts a h
+  have hF := C06_compress_indexed_contiguous_roundtrip (flagged3 cnts a) maxProf nelem h3
+  simp only [compressIndexedContiguous, h1, h4] at hF
+  simp only [compressIndexedContiguousWith, pack_flagged3 maxProf nelem cnts a h, decodeIndexedContiguous]
+  rw [assembleRows_mapNone Option.join rfl]
+  simp only [decodeIndexedContiguous] at hF
+  rw [hF]
+  conv => rhs; rw [← h2]
+  simp [List.map_flatten]
+
+example : CountsFitIC 2 2 [[2, 1], [0, 0]]
+    ([[[some 1, none], [none, none]], [[none, none], [none, none]]] : List (List (List (M Nat)))) := by
+  refine .cons rfl ⟨rfl, by decide, by decide, ?_⟩ (.cons rfl ⟨rfl, by decide, by decide, ?_⟩ .nil)
+  · intro i; match i with | 0 => decide | 1 => decide | (n + 2) => simp [List.getD_eq_getElem?_getD]
+  · intro i; match i with | 0 => decide | 1 => decide | (n + 2) => simp [List.getD_eq_getElem?_getD]
+
+/-- **… and the same for `compress('indexed_contiguous')`**: with the per-profile counts that
+`Field.compress` derives from the field data and all metadata constructs on the three data axes,
+every one of these 3-d arrays comes back unchanged. -/
+theorem C06_compress_joint_indexed_contiguous_roundtrip {α} (arrays : List (List (List (List (M α)))))
+    (ninst maxProf nelem : Nat) (hrect : ∀ b ∈ arrays, b.length = ninst ∧ Rect3 maxProf nelem b) :
+    ∀ a ∈ arrays,
+      decodeIndexedContiguous (compressIndexedContiguousWith (jointCountIC arrays) a).count
+        (compressIndexedContiguousWith (jointCountIC arrays) a).index ninst maxProf nelem
+        (compressIndexedContiguousWith (jointCountIC arrays) a).c = a.flatten := by
+  intro a ha
+  have hfit := jointCountIC_fits maxProf nelem ninst arrays hrect a ha
+  have := C06_compress_counts_indexed_contiguous_roundtrip (jointCountIC arrays) a maxProf nelem hfit
+  rwa [(hrect a ha).1] at this
+
+example : jointCountIC ([[[[some 1, none], [none, none]]], [[[some 7, some 8], [none, none]]]]
+    : List (List (List (List (M Nat))))) = [[2, 0]] := by decide
+
+/-- **Indexed contiguous: a construct on the (instance, profile) axes** (e.g. the time of each
+profile).  `Field.compress` packs the first `_n_profiles` values of every instance, where
+`_n_profiles` comes from the counts of the field data and the constructs on all three axes, and
+attaches the index variable.  Full statement (what the user expects):
+  `∀ cnts rows, decodeIndexed (compressProfileMeta cnts rows).index … = rows`
+is FALSE for the code as it is (open finding
+`compress-indexed-contiguous-profile-coordinate-beyond-last-profile-with-data`, witness below);
+proved with exactly the excluding hypothesis: no instance has a value of this construct on a
+profile after its last profile with data (`CountsFit` against the numbers of profiles). -/
+theorem C06_compress_profile_metadata_roundtrip_partial {α} (cnts : List (List Nat))
+    (rows : List (List (M α))) (maxProf : Nat) (h : CountsFit maxProf (cnts.map nProfiles) rows) :
+    decodeIndexed (compressProfileMeta cnts rows).index rows.length maxProf
+      (compressProfileMeta cnts rows).c = rows := by
+  have := C06_compress_counts_indexed_roundtrip (cnts.map nProfiles) rows maxProf h
+  simpa [compressIndexedWith, compressProfileMeta] using this
+
+/-- The hypothesis cannot be dropped: instance 0 has data on its first profile only, its profile
+coordinate has values for two profiles; the second is lost. -/
+theorem C06_compress_profile_metadata_counterexample :
+    let cnts : List (List Nat) := [[2, 0, 0]]
+    let rows : List (List (M Nat)) := [[some 10, some 11, none]]
+    decodeIndexed (compressProfileMeta cnts rows).index 1 3 (compressProfileMeta cnts rows).c
+      = [[some 10, none, none]] := by decide
+
+example : CountsFit 3 (([[2, 0, 1]] : List (List Nat)).map nProfiles)
+    ([[some 10, none, some 12]] : List (List (M Nat))) := by
+  refine ⟨rfl, by decide, by decide, ?_⟩
+  intro i; match i with | 0 => decide | (n + 1) => simp [List.getD_eq_getElem?_getD]
+
+/-! ## The underlying array stays compressed until assigned to
+
+`Cfdm/Model/RaggedState.lean`: a heap of `Data` objects, each holding a compressed array object
+or a numpy array, and the operations `.array`, `[...]`, `copy`, `[...] = v`,
+`transpose/squeeze/insert_dimension/to_memory/uncompress(inplace=…)`, `equals`, `cfdm.write`, as
+coded.  The theorems hold for every decoder `dec` (in particular the four proved above) and every
+implementation `np` of the numpy operations. -/
+section State
+open Cfdm.RaggedState
+variable {C A I V : Type} (np : NpOps A I V) (dec : C → A)
+
+/-- **Every history shows the uncompressed arrays and the right compression state.**  Running any
+history of operations on objects that hold compressed arrays shows exactly what the specification
+shows — numpy operations on the uncompressed arrays `dec c`, an object being "still compressed"
+iff it was created compressed (or copied / brought to memory from such an object) and no
+operation has changed it in place since — at every step and in the final state. -/
+theorem C06_history_refines_spec (ops : List (Op I V)) (heap : List (Repr C A)) :
+    (run np dec heap ops).1.map (abs dec) = (specRun np (heap.map (abs dec)) ops).1
+    ∧ (run np dec heap ops).2 = (specRun np (heap.map (abs dec)) ops).2 :=
+  run_abs np dec ops heap
+
+/-- **Compression is invisible in the arrays.**  Replacing every compressed object by its
+uncompressed array before the history starts changes nothing that any operation shows
+(`.array`, `equals`) nor any final array; only whether `cfdm.write` writes a sample dimension
+differs. -/
+theorem C06_history_seen_uncompressed (ops : List (Op I V)) (heap : List (Repr C A)) :
+    let plainHeap : List (Repr C A) := heap.map (fun r => Repr.plain (view dec r))
+    (run np dec heap ops).2.map eraseWritten = (run np dec plainHeap ops).2.map eraseWritten
+    ∧ (run np dec heap ops).1.map (view dec) = (run np dec plainHeap ops).1.map (view dec) := by
+  intro plainHeap
+  obtain ⟨a1, a2⟩ := run_abs np dec ops heap
+  obtain ⟨b1, b2⟩ := run_abs np dec ops plainHeap
+  have hv : (heap.map (abs dec)).map Prod.fst = (plainHeap.map (abs dec)).map Prod.fst := by
+    simp [plainHeap, RaggedState.abs, List.map_map, Function.comp_def]
+  obtain ⟨v1, v2⟩ := specRun_values np ops _ _ hv
+  refine ⟨by rw [a2, b2]; exact v2, ?_⟩
+  have e1 : (run np dec heap ops).1.map (view dec) = ((run np dec heap ops).1.map (abs dec)).map Prod.fst := by
+    simp [RaggedState.abs, List.map_map, Function.comp_def]
+  have e2 : (run np dec plainHeap ops).1.map (view dec)
+      = ((run np dec plainHeap ops).1.map (abs dec)).map Prod.fst := by
+    simp [RaggedState.abs, List.map_map, Function.comp_def]
+  rw [e1, e2, a1, b1]; exact v1
+
+/-- **Stays compressed.**  Whatever else happens — reading arrays, subspacing, copying, comparing,
+writing, operating on copies or on other objects, non-in-place operations on the object itself —
+an object that no operation of the history assigns to or changes in place still holds the very
+compressed array it started with. -/
+theorem C06_stays_compressed (ops : List (Op I V)) (heap : List (Repr C A)) (i : Nat) (c : C)
+    (h : heap[i]? = some (.comp c)) (hno : ∀ op ∈ ops, touches i op = false) :
+    (run np dec heap ops).1[i]? = some (.comp c) :=
+  run_untouched np dec ops heap i (.comp c) h hno
+
+/-- **Until assigned to.**  Assignment leaves a numpy array: the uncompressed array with the
+assigned elements replaced. -/
+theorem C06_assignment_uncompresses (heap : List (Repr C A)) (i : Nat) (d : Repr C A) (ix : I) (v : V)
+    (h : heap[i]? = some d) :
+    (step np dec heap (.setitem i ix v)).1[i]? = some (.plain (np.assign (view dec d) ix v)) := by
+  have hi : i < heap.length := (List.getElem?_eq_some_iff.mp h).1
+  simp [step, h, List.getElem?_set_self hi]
+
+/-- **Never re-compressed, never altered.**  If an object of the initial heap holds a compressed
+array after a history, it held that same compressed array from the start. -/
+theorem C06_compressed_array_unaltered (ops : List (Op I V)) (heap : List (Repr C A)) (i : Nat) (c : C)
+    (hi : i < heap.length) (h : (run np dec heap ops).1[i]? = some (.comp c)) :
+    heap[i]? = some (.comp c) :=
+  run_comp_origin np dec ops heap i c hi h
+
+/-- **Every history yields the arrays of the CF specification.**  Two decoders that agree on the
+compressed arrays held by the initial objects give identical histories — everything shown, every
+final object … -/
+theorem C06_history_decoder_irrelevant (dec dec' : C → A) (ops : List (Op I V)) (heap : List (Repr C A))
+    (h : ∀ c, Repr.comp c ∈ heap → dec c = dec' c) :
+    run np dec heap ops = run np dec' heap ops :=
+  run_agree np dec dec' ops heap h
+
+end State
+
+/-- A ragged compressed array as `cfdm.Data` holds it. -/
+inductive RaggedSrc (α : Type) where
+  | rc (count : List Nat) (nrows ncols : Nat) (c : List (M α))
+  | ri (index : List Nat) (nrows ncols : Nat) (c : List (M α))
+  | ric (count index : List Nat) (ninst maxProf nelem : Nat) (c : List (M α))
+
+/-- What `CompressedArray.__getitem__` assembles … -/
+def RaggedSrc.decode {α} : RaggedSrc α → Arr (M α)
+  | .rc count nrows ncols c => rowsToArr nrows ncols (decodeContiguous count nrows ncols c)
+  | .ri index nrows ncols c => rowsToArr nrows ncols (decodeIndexed index nrows ncols c)
+  | .ric count index ninst maxProf nelem c =>
+    rowsToArr3 ninst maxProf nelem (decodeIndexedContiguous count index ninst maxProf nelem c)
+
+/-- … and what the CF conventions define. -/
+def RaggedSrc.cf {α} : RaggedSrc α → Arr (M α)
+  | .rc count nrows ncols c => rowsToArr nrows ncols (table nrows ncols (specContiguous count c))
+  | .ri index nrows ncols c => rowsToArr nrows ncols (table nrows ncols (specIndexed index c))
+  | .ric count index ninst maxProf nelem c =>
+    rowsToArr3 ninst maxProf nelem (table ninst maxProf (fun i j =>
+      (List.range nelem).map (specIndexedContiguous count index c i j))).flatten
+
+/-- The uncompressed shape is large enough (otherwise cfdm raises). -/
+def RaggedSrc.Fits {α} : RaggedSrc α → Prop
+  | .rc count _ ncols _ => ∀ n ∈ count, n ≤ ncols
+  | .ri index nrows ncols _ => ∀ i, i < nrows → index.count i ≤ ncols
+  | .ric count index ninst maxProf nelem _ =>
+    (∀ n ∈ count, n ≤ nelem) ∧ ∀ i, i < ninst → index.count i ≤ maxProf
+
+/-- … in particular: over every history of operations on ragged compressed data, what cfdm's
+assembly shows is what the same history shows on the arrays the CF conventions define. -/
+theorem C06_history_shows_cf_arrays {α I V} (np : Cfdm.RaggedState.NpOps (Arr (M α)) I V)
+    (ops : List (Cfdm.RaggedState.Op I V)) (heap : List (Cfdm.RaggedState.Repr (RaggedSrc α) (Arr (M α))))
+    (h : ∀ z, Cfdm.RaggedState.Repr.comp z ∈ heap → z.Fits) :
+    Cfdm.RaggedState.run np RaggedSrc.decode heap ops = Cfdm.RaggedState.run np RaggedSrc.cf heap ops := by
+  apply Cfdm.RaggedState.run_agree
+  intro z hz
+  have hf := h z hz
+  cases z with
+  | rc count nrows ncols c =>
+    simp only [RaggedSrc.decode, RaggedSrc.cf, C06_decode_contiguous count nrows ncols c hf]
+  | ri index nrows ncols c =>
+    simp only [RaggedSrc.decode, RaggedSrc.cf, C06_decode_indexed index nrows ncols c hf]
+  | ric count index ninst maxProf nelem c =>
+    simp only [RaggedSrc.decode, RaggedSrc.cf,
+      C06_decode_indexed_contiguous count index ninst maxProf nelem c hf.1 hf.2]
+
+example : (RaggedSrc.rc [2, 0, 1] 3 2 [some 1, some 2, some 3] : RaggedSrc Nat).Fits := by
+  simp only [RaggedSrc.Fits]; decide
+
+
+-- non-vacuity: a history on one compressed object (decoder = "double every element")
+example :
+    let np : Cfdm.RaggedState.NpOps (List Nat) Nat Nat :=
+      { shape := fun a => [a.length], take := fun a i => [a.getD i 0], assign := fun a i v => a.set i v,
+        transpose := fun a _ => a.reverse, squeeze := fun a _ => a, expand := fun a _ => a,
+        eqv := fun a b => a == b }
+    let dec : List Nat → List Nat := List.map (· * 2)
+    let heap : List (Cfdm.RaggedState.Repr (List Nat) (List Nat)) := [.comp [1, 2, 3]]
+    let r := Cfdm.RaggedState.run np dec heap
+      [.getitem 0 1, .copy 0, .setitem 2 0 9, .transpose 0 none false, .transpose 0 (some [0]) false,
+       .insertDim 0 0 false, .equals 0 2, .write 0, .write 2]
+    r.1.map (Cfdm.RaggedState.abs dec)
+      = [([2, 4, 6], true), ([4], false), ([9, 4, 6], false), ([2, 4, 6], true), ([2, 4, 6], true),
+         ([2, 4, 6], false)]
+    ∧ (Cfdm.RaggedState.touches 0 (.setitem 2 0 9 : Cfdm.RaggedState.Op Nat Nat)) = false := by
+  decide
+
+example : toList (Cfdm.RaggedState.transposeArr (iota [2, 3]) [1, 0]) = [0, 3, 1, 4, 2, 5]
+    ∧ (Cfdm.RaggedState.squeezeArr (iota [1, 2, 1, 3]) [0, 2]).shape = [2, 3]
+    ∧ toList (Cfdm.RaggedState.squeezeArr (iota [1, 2, 1, 3]) [0, 2]) = [0, 1, 2, 3, 4, 5]
+    ∧ (Cfdm.RaggedState.expandArr (iota [2, 3]) 1).shape = [2, 1, 3]
+    ∧ toList (Cfdm.RaggedState.assignArr (iota [2, 3]) [[1], [0, 2]] 9) = [0, 1, 2, 9, 4, 9] := by
+  decide
+
+/-! ## The netCDF encoding (`Cfdm/Model/RaggedNc.lean`) -/
+section File
+open Cfdm.RaggedNc
+
+/-- **A compressed field is written compressed, and reading the dataset gives the CF array back —
+for the field and for every construct written with it.**  For every DSG field that `cfdm.write`
+accepts (`encodeRagged f = some ds`), with a `featureType` and usable names (`WF`): the variable
+of every construct `c` is found again by name and `cfdm.read` presents
+* a construct on the instance axis alone: its values, unchanged;
+* the field's data and every construct on the same axes (span `data`): the CF 9.3.3 / 9.3.4 /
+  9.3.5 array defined by the WRITTEN count / index variables and the written samples, in the
+  shape the reader derives from those variables;
+* indexed contiguous, a construct on the (instance, profile) axes: the CF 9.3.4 array defined by
+  the written index variable.
+By `C06_read_shape_sufficient` nothing lies outside the reader's shape, and by `C06_decode_*` the
+arrays on the right are what the field showed in memory before it was written. -/
+theorem C06_file_ragged {α} (f : RaggedField α) (ds : NcDs α) (hwf : f.WF)
+    (henc : encodeRagged f = some ds) (c : Construct α) (hc : c ∈ f.constructs) :
+    (c.span = .instance → readVar ds c.name = some (plain1 c.samples))
+    ∧ (c.span = .data → readVar ds c.name = some (match f.kind with
+        | .contiguous => rowsToArr f.count.length (maxL f.count)
+            (table f.count.length (maxL f.count) (specContiguous f.count c.samples))
+        | .indexed => rowsToArr f.ninst (maxOcc f.index)
+            (table f.ninst (maxOcc f.index) (specIndexed f.index c.samples))
+        | .indexedContiguous => rowsToArr3 f.ninst (maxOcc f.index) (maxL f.count)
+            (table f.ninst (maxOcc f.index) (fun i j =>
+              (List.range (maxL f.count)).map (specIndexedContiguous f.count f.index c.samples i j))).flatten))
+    ∧ (c.span = .profile → readVar ds c.name = some (rowsToArr f.ninst (maxOcc f.index)
+        (table f.ninst (maxOcc f.index) (specIndexed f.index c.samples)))) := by
+  obtain ⟨h1, h2, h3⟩ := readVar_encoded f ds hwf henc c hc
+  refine ⟨h1, ?_, ?_⟩
+  · intro hs
+    rw [h2 hs]
+    cases f.kind <;> simp only [C06_read_contiguous, C06_read_indexed, C06_read_indexed_contiguous]
+  · intro hs
+    rw [h3 hs, C06_read_indexed]
+
+/-- **Which fields can be written.**  `cfdm.write` of a DSG field fails exactly when some construct
+cannot be given netCDF dimensions: an UNcompressed construct that spans an element axis (which has
+no netCDF dimension), a compressed one on the instance axis alone, or an (instance, profile)
+construct of a field that is not indexed contiguous. -/
+theorem C06_file_writable_iff {α} (f : RaggedField α) :
+    encodeRagged f = none ↔ ∃ c ∈ f.constructs, constructDims f c = none := by
+  have hseq : ∀ (l : List (Construct α)),
+      sequenceOpt (l.map (constructVar f)) = none ↔ ∃ c ∈ l, constructDims f c = none := by
+    intro l
+    induction l with
+    | nil => simp [sequenceOpt]
+    | cons c cs ih =>
+      simp only [List.map_cons, List.mem_cons, exists_eq_or_imp]
+      cases hd : constructDims f c with
+      | none => simp [constructVar, hd, sequenceOpt]
+      | some d =>
+        simp only [constructVar, hd, Option.map_some, sequenceOpt, Option.map_eq_none_iff, ih]
+        simp
+  simp only [encodeRagged]
+  cases h : sequenceOpt (f.constructs.map (constructVar f)) with
+  | none => simpa using (hseq f.constructs).mp h
+  | some cvars =>
+    simp only [false_iff, reduceCtorEq]
+    intro hex
+    rw [(hseq f.constructs).mpr hex] at h
+    simp at h
+
+/-- A field whose data were assigned to (no longer compressed) while a coordinate on the same axes
+still is — or the other way round — is such a field: the code as it is cannot write it. -/
+theorem C06_file_mixed_compression_not_writable :
+    let f : RaggedField Nat :=
+      { kind := .contiguous, featureType := true, instDim := "station", ninst := 2, sampleDim := "obs",
+        profileDim := "profile", countVar := "row_size", indexVar := "index", count := [1, 2], index := [],
+        constructs := [{ name := "alt", span := .data, compressed := true, samples := [some 1, some 2, some 3] },
+                       { name := "temp", span := .data, compressed := false, samples := [some 7, none, some 8, some 9] }] }
+    encodeRagged f = none := by
+  intro f
+  exact (C06_file_writable_iff f).mpr ⟨_, List.mem_cons_of_mem _ (List.mem_singleton_self _), rfl⟩
+
+-- non-vacuity of `C06_file_ragged`, and the `featureType` hypothesis cannot be dropped: without
+-- the global attribute the reader leaves the samples as a 1-d array.
+example :
+    let f : Bool → RaggedField Nat := fun ft =>
+      { kind := .contiguous, featureType := ft, instDim := "station", ninst := 2, sampleDim := "obs",
+        profileDim := "profile", countVar := "row_size", indexVar := "index", count := [1, 2], index := [],
+        constructs := [{ name := "lat", span := .instance, compressed := false, samples := [some 50, some 60] },
+                       { name := "temp", span := .data, compressed := true, samples := [some 7, some 8, some 9] }] }
+    ((encodeRagged (f true)).bind (fun ds => readVar ds "temp")).map (fun a => (a.shape, toList a))
+        = some ([2, 2], [some 7, none, some 8, some 9])
+    ∧ ((encodeRagged (f false)).bind (fun ds => readVar ds "temp")).map (fun a => (a.shape, toList a))
+        = some ([3], [some 7, some 8, some 9])
+    ∧ ((encodeRagged (f true)).map (fun ds => ds.dims)) = some [("station", 2), ("obs", 3)] := by
+  decide
+
+example :
+    let f : RaggedField Nat :=
+      { kind := .contiguous, featureType := true, instDim := "station", ninst := 2, sampleDim := "obs",
+        profileDim := "profile", countVar := "row_size", indexVar := "index", count := [1, 2], index := [],
+        constructs := [{ name := "temp", span := .data, compressed := true, samples := [some 7, some 8, some 9] }] }
+    f.WF := by
+  intro f
+  exact ⟨rfl, by decide, by decide, by decide, by decide, by intro h; cases h⟩
+
+/-- **Gathered fields.**  Every construct of a gathered field is written on
+`lead ++ [list dimension] ++ trail`, the list variable is the coordinate-like variable of that
+dimension with `compress` naming the gathered dimensions, and reading gives an array of shape
+`lead ++ dims ++ trail` whose every element is the CF 8.2 one (`specGatheredND`). -/
+theorem C06_file_gathered {α} (g : GatheredField α) (hwf : g.WF) (c : String × (List Nat → M α))
+    (hc : c ∈ g.constructs) (hl : ∀ q ∈ g.list, q < prod (g.dims.map Prod.snd)) :
+    ∃ a, readVar (encodeGathered g) c.1 = some a
+      ∧ a.shape = g.lead.map Prod.snd ++ g.dims.map Prod.snd ++ g.trail.map Prod.snd
+      ∧ ∀ idx, InRange (g.dims.map Prod.snd) (midIdx g.lead.length g.dims.length idx) →
+          a.get idx = specGatheredND g.lead.length (g.dims.map Prod.snd) g.list c.2 idx := by
+  refine ⟨_, readVar_gathered g hwf c hc, rfl, ?_⟩
+  intro idx hi
+  have hlen : (g.dims.map Prod.snd).length = g.dims.length := by simp
+  exact C06_decode_gathered_nd g.lead.length (g.dims.map Prod.snd) g.list c.2 idx hl (by rw [hlen]; exact hi)
+
+example :
+    let g : GatheredField Nat :=
+      { lead := [("time", 2)], dims := [("lat", 2), ("lon", 2)], trail := [], listVar := "landpoint",
+        list := [3, 0], constructs := [("temp", fun i => some (i.getD 0 0 * 10 + i.getD 1 0))] }
+    (readVar (encodeGathered g) "temp").map (fun a => (a.shape, toList a))
+      = some ([2, 2, 2], [some 1, none, none, some 0, some 11, none, none, some 10]) := by decide
+
+end File
+
 /-
-Not stated as theorems (checked on every run by the correspondence streams and the
-independent oracle only, see `harness/corr/C06.py`):
-* "the underlying array stays compressed until assigned to" (`get_compression_type` after
-  `.array`, after subspacing, after `equals`; `''` after `__setitem__`) — there is no decision
-  core to model, the observable is compared directly;
-* the netCDF encoding (`C06_file` of DESIGN.md): count/index/list variables and the sample
-  dimension as written by `cfdm.write` are decoded by a netCDF4-only reader, and files written
-  by a netCDF4-only writer are read with `cfdm.read` (stream `C06.rd`).
+Not stated as theorems (checked on every run by the correspondence streams and the independent
+oracle only, see `harness/corr/C06.py`):
+* bounds of compressed coordinates, element data types, the `coordinates` attribute and every netCDF
+  attribute other than `sample_dimension` / `instance_dimension` / `compress` / `featureType`;
+* that `_netcdf_name` gives the sample / profile / list dimensions names that are free (hypothesis
+  `WF` of `C06_file_*`; stream `C06.fld` with name clashes and a second field in the file).
 -/
 
 end Cfdm.Props.C06
